@@ -5,6 +5,7 @@ import (
 	"encoding/json"
 	"fmt"
 	"github.com/scrapli/scrapligo/driver/generic"
+	"regexp"
 	"strings"
 	"sync"
 	"time"
@@ -58,6 +59,7 @@ type faultCase struct {
 	// idle loss: the first operation completes, the device then prints Unsolicited (a log line and
 	// a fresh prompt), the reader takes it, the connection is lost while idle, and NextOp
 	// (cmd | getprompt) follows: it must fail although a complete prompt sits in the queue
+	Interim     bool   `json:"interim,omitempty"` // cmd only: the operation carries an interim prompt pattern
 	Idle        bool   `json:"idle,omitempty"`
 	Unsolicited string `json:"unsolicited,omitempty"`
 	NextOp      string `json:"next_op,omitempty"`
@@ -69,7 +71,7 @@ func genFault(prop string, r *sim.Rng, i int) *faultCase {
 	if prop == "C05" {
 		c.Fault = "stall"
 		c.Timeout = r.Pick([]string{"conn", "conn", "perop"})
-		if c.Op == "getprompt" || c.Op == "acquire" || c.Op == "netcmd" || c.Op == "callbacks" {
+		if c.Op == "getprompt" || c.Op == "acquire" || c.Op == "netcmd" {
 			c.Timeout = "conn"
 		}
 	} else {
@@ -95,6 +97,9 @@ func genFault(prop string, r *sim.Rng, i int) *faultCase {
 			pr = "host(l1)#"
 		}
 		c.Unsolicited = r.Pick([]string{"\r\n%LINK-3-UPDOWN: Interface Gi0/1, changed state to down\r\n" + pr, "\r\n" + pr, "", "*Mar  1 00:00:01: %SYS-5-CONFIG_I\r\n" + pr + "\r\n" + pr})
+	}
+	if c.Op == "cmd" && r.Chance(1, 3) {
+		c.Interim = true
 	}
 	c.Cmd = fmt.Sprintf("show q%d", r.Intn(90)+10)
 	c.Next = fmt.Sprintf("display z%d", r.Intn(9))
@@ -165,6 +170,7 @@ type faultRun struct {
 	w0       int // number of writes before the first operation
 	w1       int // ... and after it
 	crashed  string
+	cbFired  int // callbacks that had run when the first operation returned
 	closed   bool
 	cached   string
 	devLines []string
@@ -274,6 +280,11 @@ func execFault(c *faultCase, fault bool, k int) *faultRun {
 		getCached = func() string { return "" }
 		getPrompt = d.GetPrompt
 		flags := ""
+		interim := ""
+		if c.Interim {
+			oo = append(oo, opoptions.WithInterimPromptPattern([]*regexp.Regexp{regexp.MustCompile(rx["password_pattern"])}))
+			interim = "password_pattern"
+		}
 		sendCmd = func(cmd string) (string, error) {
 			r, e := d.SendCommand(cmd, oo...)
 			if e != nil {
@@ -284,7 +295,7 @@ func execFault(c *faultCase, fault bool, k int) *faultRun {
 		switch c.Op {
 		case "cmd":
 			first = func() (string, error) { return sendCmd(c.Cmd) }
-			calls = []string{fmt.Sprintf("in|%s|%s|", hx([]byte(c.Cmd)), flags)}
+			calls = []string{fmt.Sprintf("in|%s|%s|%s", hx([]byte(c.Cmd)), flags, interim)}
 		case "getprompt":
 			first = func() (string, error) { return d.GetPrompt() }
 			calls = []string{"gp"}
@@ -301,9 +312,17 @@ func execFault(c *faultCase, fault bool, k int) *faultRun {
 				}, oo...)
 				return cb
 			}
+			// "perop" for a callback send: the operation timeout is long (2 s) and the answering
+			// callbacks carry a short next-timeout, which is the one in force once a callback has run
+			var nt []util.Option
+			cbFlags := "ri"
+			if c.Timeout == "perop" && fault {
+				nt = []util.Option{opoptions.WithCallbackNextTimeout(faultOpTimeout)}
+				cbFlags = "rit"
+			}
 			cbs := []*generic.Callback{
-				mk(0, "y", opoptions.WithCallbackContains("[y/n]")),
-				mk(1, "s3cret", opoptions.WithCallbackContains("password:")),
+				mk(0, "y", append([]util.Option{opoptions.WithCallbackContains("[y/n]")}, nt...)...),
+				mk(1, "s3cret", append([]util.Option{opoptions.WithCallbackContains("password:")}, nt...)...),
 				mk(2, "", opoptions.WithCallbackContains("router#"), opoptions.WithCallbackComplete()),
 			}
 			first = func() (string, error) {
@@ -313,8 +332,8 @@ func execFault(c *faultCase, fault bool, k int) *faultRun {
 				}
 				return r.Result, nil
 			}
-			calls = []string{fmt.Sprintf("cb|%s|%s/%s/-/ri/%s;%s/%s/-/ri/%s;%s/%s/-/ric/-", hx([]byte("reload")),
-				hx([]byte("[y/n]")), "", hx([]byte("y")), hx([]byte("password:")), "", hx([]byte("s3cret")), hx([]byte("router#")), "")}
+			calls = []string{fmt.Sprintf("cb|%s|%s/%s/-/%s/%s;%s/%s/-/%s/%s;%s/%s/-/ric/-", hx([]byte("reload")),
+				hx([]byte("[y/n]")), "", cbFlags, hx([]byte("y")), hx([]byte("password:")), "", cbFlags, hx([]byte("s3cret")), hx([]byte("router#")), "")}
 		case "interactive":
 			evs := []*channel.SendInteractiveEvent{{ChannelInput: "reload", ChannelResponse: rx["password_pattern"]}, {ChannelInput: "yes", ChannelResponse: ""}}
 			first = func() (string, error) {
@@ -326,7 +345,7 @@ func execFault(c *faultCase, fault bool, k int) *faultRun {
 			}
 			calls = []string{fmt.Sprintf("ia|||%s/password_pattern/v;%s/-/v", hx([]byte("reload")), hx([]byte("yes")))}
 		}
-		calls = append(calls, fmt.Sprintf("in|%s|%s|", hx([]byte(c.Next)), flags))
+		calls = append(calls, fmt.Sprintf("in|%s|%s|%s", hx([]byte(c.Next)), flags, interim))
 	}
 	fr.tr = tr
 	time.Sleep(2 * time.Millisecond)
@@ -355,6 +374,9 @@ func execFault(c *faultCase, fault bool, k int) *faultRun {
 	}
 	fr.errs = append(fr.errs, err)
 	fr.results = append(fr.results, res)
+	cbMu.Lock()
+	fr.cbFired = len(cbTrace)
+	cbMu.Unlock()
 	var wsAfter [][]byte
 	wsAfter, fr.d1, _ = tr.Snapshot()
 	fr.w1 = len(wsAfter)
@@ -475,6 +497,9 @@ func runFaultCase(id string, c *faultCase) {
 	connTimeout := faultConnTimeout
 	if c.Timeout == "perop" {
 		connTimeout = faultOpTimeout
+		if c.Op == "callbacks" && fr.cbFired == 0 {
+			connTimeout = 2 * time.Second // no callback has run yet: the operation's own timeout is in force
+		}
 	}
 	switch c.Prop {
 	case "C05":
